@@ -30,7 +30,7 @@ def run(rep, tier, seed):
         else:
             ex = chk.run_config('hist', consts(Cats=['A', 'AB', 'A_B'], Metas=METAS_SMALL, FilterNames=ALL_FILTERS,
                                                Limits=[0, 1, 2], Randoms=[False, True], Ops=['list', 'default'],
-                                               MaxSaves=2, MaxQueries=1), cap=400000)
+                                               MaxSaves=2, MaxQueries=1), cap=60000)
             chk.run_config('resave', consts(Cats=['A', 'AB'], Metas=METAS_SMALL[:3], FilterNames=['none', 'skipinc', 'k1a'],
                                             Limits=[0, 1, 2], Randoms=[False, True], Ops=['list', 'default', 'resave', 'get'],
                                             MaxSaves=2, MaxQueries=3), cap=100000)
@@ -39,7 +39,7 @@ def run(rep, tier, seed):
                                            MaxQueries=1), cap=60000)
             chk.run_config('population', consts(Cats=['A', 'AB', 'A_B', 'B'], Metas=METAS_SMALL, FilterNames=ALL_FILTERS,
                                                 Limits=[0, 1, 2, 5, 30], Randoms=[False, True], Ops=['list', 'default'],
-                                                MaxSaves=len(pop), MaxQueries=2, Population=pop), cap=100000, n_seeds=2)
+                                                MaxSaves=len(pop), MaxQueries=2, Population=pop), cap=15000, n_seeds=1)
             rep.exhaustive = bool(ex)
     finally:
         chk.close()
